@@ -13,6 +13,7 @@
  * 5 = set-up failure.  ThreadSanitizer reports go to TSAN_OPTIONS' log_path. */
 #include "coap3/coap_libcoap_build.h"
 #include <pthread.h>
+#include <signal.h>
 #include <stdatomic.h>
 #include <stdio.h>
 #include <stdlib.h>
@@ -320,6 +321,27 @@ io_thread(void *arg) {
   return NULL;
 }
 
+/* Applications have signal handlers (SIGINT sets a quit flag, timers, child reaping): the I/O
+ * threads' epoll_wait()/select() return EINTR at arbitrary moments */
+static pthread_t io_tids[2];
+static atomic_long n_signals;
+
+static void
+on_sigusr1(int sig) {
+  (void)sig;
+}
+
+static void *
+signaller(void *arg) {
+  (void)arg;
+  while (!atomic_load(&stop_io)) {
+    pthread_kill(io_tids[atomic_load(&n_signals) & 1], SIGUSR1);
+    atomic_fetch_add(&n_signals, 1);
+    usleep(1500);
+  }
+  return NULL;
+}
+
 typedef struct {
   int w, ops;
   uint64_t seed;
@@ -529,7 +551,7 @@ main(int argc, char **argv) {
   uint64_t seed = argc > 3 ? strtoull(argv[3], NULL, 10) : 1;
   int stall = argc > 4 ? atoi(argv[4]) : 20;
   int dio = argc > 5 ? atoi(argv[5]) : 0;
-  pthread_t io1, io2, wt[MAXW];
+  pthread_t io1, io2, sigt, wt[MAXW];
   wk_t wk[MAXW];
   coap_session_t *shared_udp, *shared_tcp;
   coap_str_const_t *n;
@@ -600,8 +622,17 @@ main(int argc, char **argv) {
   coap_session_set_nstart(shared_udp, 8);
 
   clock_gettime(CLOCK_MONOTONIC, &t0);
+  {
+    struct sigaction sa;
+    memset(&sa, 0, sizeof(sa));
+    sa.sa_handler = on_sigusr1; /* no SA_RESTART */
+    sigaction(SIGUSR1, &sa, NULL);
+  }
   pthread_create(&io1, NULL, io_thread, srv);
   pthread_create(&io2, NULL, io_thread, cli);
+  io_tids[0] = io1;
+  io_tids[1] = io2;
+  pthread_create(&sigt, NULL, signaller, NULL);
   for (i = 0; i < nw; i++) {
     wk[i].w = i;
     wk[i].ops = ops;
@@ -644,6 +675,7 @@ main(int argc, char **argv) {
   for (i = 0; i < nw; i++)
     pthread_join(wt[i], NULL);
   atomic_store(&stop_io, 1);
+  pthread_join(sigt, NULL);
   pthread_join(io1, NULL);
   pthread_join(io2, NULL);
   clock_gettime(CLOCK_MONOTONIC, &t1);
@@ -673,7 +705,7 @@ main(int argc, char **argv) {
          "\"ping_handler\":%ld,\"pong_handler\":%ld,\"release_handler\":%ld,\"reentry_calls\":%ld,\"notifications\":%ld,"
          "\"sent_con\":%ld,\"sent_non\":%ld,\"send_fail\":%ld,\"tracked_con\":%ld,\"unanswered\":%ld,"
          "\"lock_calls\":%ld,\"lock_acquisitions\":%ld,\"lock_handovers\":%ld,\"handover_pairs\":%d,"
-         "\"ms\":%ld,\"unanswered_list\":\"%s\",\"failed_context_calls\":%ld,\"opmix\":[",
+         "\"ms\":%ld,\"unanswered_list\":\"%s\",\"failed_context_calls\":%ld,\"signals_to_io_threads\":%ld,\"opmix\":[",
          dual_io, supported, nw, ops, (unsigned long long)seed, port, atomic_load(&n_req_handler),
          atomic_load(&n_rsp_handler), atomic_load(&n_nack_handler), atomic_load(&n_event_handler),
          atomic_load(&n_ping_handler), atomic_load(&n_pong_handler), atomic_load(&n_release_handler),
@@ -682,7 +714,7 @@ main(int argc, char **argv) {
          atomic_load(&n_send_fail), total_sent, unanswered, atomic_load(&lock_calls), lock_acq,
          lock_handover, npairs,
          (long)((t1.tv_sec - t0.tv_sec) * 1000 + (t1.tv_nsec - t0.tv_nsec) / 1000000), unans,
-         atomic_load(&failed_ctx_calls));
+         atomic_load(&failed_ctx_calls), atomic_load(&n_signals));
   for (i = 0; i < 12; i++)
     printf("%s%ld", i ? "," : "", atomic_load(&op_count[i]));
   printf("],\"pairs\":[");
